@@ -89,7 +89,7 @@ def _is_cc(ref: RG, district, within):
     return frozenset(district) in sub.districts()
 
 
-def _post_identify(snap, res, *, input_variables, input_district, district_probability, graph, topo):
+def _post_identify(snap, res, *, input_variables, input_district, district_probability, graph, topo, **_more):
     if CTX["ref"] is None or snap is None or not snap["top"]:
         return
     from y0.dsl import Expression
@@ -289,6 +289,40 @@ def run_graph(ctx, gd, rng, K):
     CTX["ref"] = None
 
 
+def nested_district(d):
+    """One district that IDENTIFY has to peel d+1 times: C with parents A1..Ad, Z_k -> A_{k+1}, C -> Z_d, and
+    A_k <-> Z_k <-> C."""
+    a = [f"A{k}" for k in range(1, d + 1)]
+    z = [f"Z{k}" for k in range(1, d + 1)]
+    di = [[x, "C"] for x in a] + [[z[k - 1], a[k]] for k in range(1, d)] + [["C", z[d - 1]]]
+    bi = [[a[k], z[k]] for k in range(d)] + [[z[k], "C"] for k in range(d)]
+    return {"nodes": ["C"] + a + z, "di": di, "bi": bi, "hostile": f"nested-district-{d}"}
+
+
+def run_nested(ctx, d, rng, K):
+    """Q[{C}] from the joint of a d-times nested district (totality at any depth; the value where the exact models fit)."""
+    from y0.algorithm.tian_id import identify_district_variables
+    from y0.dsl import P, Variable
+
+    gd = nested_district(d)
+    g = gg.to_nx(gd)
+    ref = gg.to_rg(gd)
+    CTX["ref"] = None
+    set_graph(ref, gg.key(gd), K if d <= 2 else 1)
+    topo = random_topo(ref, rng)
+    kernel.LOG.reset_case({"graph": gd, "T": sorted(v.name for v in ref.V), "C": ["C"], "topo": [v.name for v in topo],
+                           "form": "joint", "tagged": False})
+    kernel.count(f"C17:nested-district-depth-{d}")
+    res = None
+    try:
+        res = identify_district_variables(input_variables=frozenset({Variable("C")}), input_district=frozenset(ref.V),
+                                          district_probability=P(topo), graph=g, topo=topo)
+    except Exception:  # noqa: BLE001 -- judged by the on_raise monitor
+        pass
+    ctx.case(f"nested|{d}|{[str(t) for t in topo]}", res is not None, sample={"graph": gd, "C": ["C"], "answer_chars": len(str(res))})
+    CTX["ref"] = None
+
+
 def run_shard(ctx):
     gg.ALLOW_ODD = True  # node names that are not Python identifiers are node names like any other
     install()
@@ -302,6 +336,13 @@ def run_shard(ctx):
         hostile[gd["hostile"]] = hostile.get(gd["hostile"], 0) + 1
         run_graph(ctx, gd, rng, K)
     ctx.extras["hostile_classes"] = hostile
+    # deeply nested districts (IDENTIFY recursion depth 2..5)
+    for d in (1, 2):
+        run_nested(ctx, d, rng, K)
+    if ctx.shard % 4 == 1:
+        run_nested(ctx, 3, rng, K)
+    if ctx.mine(7):
+        run_nested(ctx, 4, rng, K)
 
 
 def replay(case):
